@@ -63,6 +63,79 @@ func c13Identifiers(limit int) []struct {
 	}
 }
 
+func c13ValueForms() [][]ev.E {
+	var out [][]ev.E
+	for _, e := range c15Alphabet() {
+		switch e.K {
+		case ev.ArrayBegin, ev.MediaBegin, ev.CustomBegin, ev.Chunk, ev.Data, ev.List, ev.Map, ev.End, ev.Edge, ev.Node, ev.RecordType, ev.Record, ev.Marker, ev.Ref,
+			ev.Padding, ev.Comment, ev.Error, ev.ED:
+			continue
+		}
+		out = append(out, []ev.E{e})
+	}
+	out = append(out,
+		[]ev.E{ev.EABegin(events.ArrayTypeString), ev.EChunk(1, true), ev.EData([]byte("a")), ev.EChunk(1, false), ev.EData([]byte("b"))},
+		[]ev.E{ev.EABegin(events.ArrayTypeResourceID), ev.EChunk(2, false), ev.EData([]byte("r:"))},
+		[]ev.E{ev.EABegin(events.ArrayTypeUint8), ev.EChunk(1, false), ev.EData([]byte{1})},
+		[]ev.E{ev.EABegin(events.ArrayTypeReferenceRemote), ev.EChunk(1, false), ev.EData([]byte("r"))},
+		[]ev.E{ev.EMBegin("a/b"), ev.EChunk(0, false)},
+		[]ev.E{ev.EList(), ev.EEnd()}, []ev.E{ev.EMap(), ev.EEnd()}, []ev.E{ev.ENode(), ev.EPInt(1), ev.EEnd()}, []ev.E{ev.EEdge(), ev.EPInt(1), ev.EPInt(2), ev.EPInt(3), ev.EEnd()},
+		[]ev.E{ev.ERec("x"), ev.EPInt(1), ev.EEnd()},
+	)
+	return out
+}
+
+func c13MarkedKinds(c *fx.Ctx) {
+	cat := func(parts ...[]ev.E) []ev.E {
+		var o []ev.E
+		for _, p := range parts {
+			o = append(o, p...)
+		}
+		return o
+	}
+	one := func(es ...ev.E) []ev.E { return es }
+	hdr := one(ev.EBD(), ev.EV(0), ev.ERecType("x"), ev.EStr("f"), ev.EEnd())
+	ref := one(ev.ERef("a"))
+	// positions for the reference: each returns the events of a container holding the reference
+	positions := []struct {
+		name string
+		mk   func() []ev.E
+	}{
+		{"list-element", func() []ev.E { return cat(one(ev.EList()), ref, one(ev.EEnd())) }},
+		{"map-key", func() []ev.E { return cat(one(ev.EMap()), ref, one(ev.EPInt(1), ev.EEnd())) }},
+		{"map-value", func() []ev.E { return cat(one(ev.EMap(), ev.EStr("k")), ref, one(ev.EEnd())) }},
+		{"edge-source", func() []ev.E { return cat(one(ev.EEdge()), ref, one(ev.EPInt(2), ev.EPInt(3), ev.EEnd())) }},
+		{"edge-description", func() []ev.E { return cat(one(ev.EEdge(), ev.EPInt(1)), ref, one(ev.EPInt(3), ev.EEnd())) }},
+		{"edge-destination", func() []ev.E { return cat(one(ev.EEdge(), ev.EPInt(1), ev.EPInt(2)), ref, one(ev.EEnd())) }},
+		{"node-value", func() []ev.E { return cat(one(ev.ENode()), ref, one(ev.EEnd())) }},
+		{"node-child", func() []ev.E { return cat(one(ev.ENode(), ev.EPInt(1)), ref, one(ev.EEnd())) }},
+		{"record-field", func() []ev.E { return cat(one(ev.ERec("x")), ref, one(ev.EEnd())) }},
+	}
+	for _, vf := range c13ValueForms() {
+		if !c.Take() {
+			continue
+		}
+		marked := cat(one(ev.EMarker("a")), vf)
+		for _, p := range positions {
+			for order := 0; order < 3; order++ {
+				var doc []ev.E
+				switch order {
+				case 0: // marker first, reference later
+					doc = cat(hdr, one(ev.EList()), marked, p.mk(), one(ev.EEnd(), ev.EED()))
+				case 1: // forward reference
+					doc = cat(hdr, one(ev.EList()), p.mk(), marked, one(ev.EEnd(), ev.EED()))
+				case 2: // the marked value is itself a map key, the reference follows in the same map
+					doc = cat(hdr, one(ev.EList(), ev.EMap()), marked, one(ev.EPInt(1), ev.EStr("z")), p.mk(), one(ev.EEnd(), ev.EEnd(), ev.EED()))
+				}
+				c.Add("evaluations", 1)
+				c.Add("marked_kind_docs", 1)
+				name := []string{"backward", "forward", "marked-key"}[order]
+				lockstep(c, doc, nil, rulesmodel.Config{}, "marked-kinds:"+name+":"+p.name+":", func(e ev.E, ctx string) string { return valueClass(vf[0]) })
+			}
+		}
+	}
+}
+
 func c13Run(c *fx.Ctx) {
 	// 1. BFS with the strict marker model
 	s := &rsearch{prefix: []ev.E{ev.EBD(), ev.EV(0)}, alphabet: c13Alphabet(), depth: c.Pick(7, 9), split: 2, checkVerdict: true}
@@ -72,6 +145,12 @@ func c13Run(c *fx.Ctx) {
 			depth: c.Pick(5, 7), split: 2, checkVerdict: true}
 		rs.run(c)
 	}
+
+	// 1c. marked value kinds: every complete value form of the extended alphabet (every scalar method × boundary values,
+	// re-routed NaN/nil forms, whole and chunked arrays, containers) under a marker, referenced before and after the
+	// marker from every kind of position (list element, map key, map value, edge source/description/destination, node
+	// value, record field). The strict model decides each sequence event by event.
+	c13MarkedKinds(c)
 
 	// 1b. builder clause: references are replaced by the marked value in typed and untyped builds
 	c13BuilderClause(c)
